@@ -1,6 +1,6 @@
 #!/venv/bin/python
 """Run the pinned baseline suite (guard off) and report any stable_pass test that no longer passes.
-usage: baseline.py [repo_dir]"""
+usage: baseline.py [repo_dir [test paths...]]   (with test paths: only those files are run and compared)"""
 import json, subprocess, sys, tempfile, os, xml.etree.ElementTree as ET
 repo = sys.argv[1] if len(sys.argv) > 1 else "/repo"
 base = json.load(open("/root/.vp/BASELINE.json"))
@@ -8,14 +8,18 @@ fd, out = tempfile.mkstemp(suffix=".xml"); os.close(fd)
 env = dict(os.environ); env.pop("PYDCOP_VERIF", None); env["PYTHONPATH"] = repo
 cmd = ["/venv/bin/python", "-m", "pytest", "-ra", "-q", "-p", "no:cacheprovider", "--timeout=900",
        "--continue-on-collection-errors", "--junitxml=" + out]
+paths = sys.argv[2:]
+cmd += paths
 p = subprocess.run(cmd, cwd=repo, env=env, stdout=subprocess.PIPE, stderr=subprocess.STDOUT, text=True)
 passed = set()
 for tc in ET.parse(out).getroot().iter("testcase"):
     if not any(c.tag in ("failure", "error", "skipped") for c in tc):
         passed.add(tc.get("classname") + "::" + tc.get("name"))
 os.unlink(out)
-missing = [t for t in base["stable_pass"] if t not in passed]
-print("passed:", len(passed), "stable_pass:", len(base["stable_pass"]), "missing:", len(missing))
+mods = [q[:-3].replace("/", ".") for q in paths]
+expected = [t for t in base["stable_pass"] if not paths or any(t.startswith(m + "::") or t.startswith(m + ".") for m in mods)]
+missing = [t for t in expected if t not in passed]
+print("passed:", len(passed), "stable_pass:", len(expected), "missing:", len(missing))
 for m in missing:
     print("  MISSING", m)
 print(p.stdout.strip().splitlines()[-1])
